@@ -10,4 +10,4 @@ if ! (cd "$d" && patch -p1 -s < "$patch"); then echo "PATCH FAILED"; exit 3; fi
 if [ "${MUT_BUILD:-1}" = 1 ]; then
   (cd "$d" && GOFLAGS=-mod=mod GOPROXY=off go build ./... ) || { echo "BUILD FAILED"; exit 3; }
 fi
-/verif/bin/govc dev -repo "$d" "$@"
+"$(dirname "$0")/../bin/govc" dev -repo "$d" -stubs "$(dirname "$0")/../stubs" "$@"
